@@ -133,7 +133,7 @@ Lemma compile_prefix i ms : forall cms, compile (map (to_key i) ms) = Some cms -
 Proof.
   induction ms as [|m ms IH]; intros cms H; simpl in H.
   - injection H as <-. constructor.
-  - destruct (to_key i m) as [b| |] eqn:E; [|auto|discriminate].
+  - destruct (to_key i m) as [b| |] eqn:E; [|auto|auto].
     destruct (compile (map (to_key i) ms)) as [r|]; [|discriminate]. simpl in H. injection H as <-.
     constructor; [eapply to_key_prefix; eauto|auto].
 Qed.
